@@ -254,7 +254,7 @@ theorem parseExternalId_reach {s s' : Stream} {b : Bool}
         ((skipBytes_reach _ _).trans (consumeByte_reach h5))
     split at h
     · simp at h; obtain ⟨_, rfl⟩ := h; exact r5
-    · simp only [Option.bind_eq_bind, Option.bind_eq_some_iff, Option.some.injEq,
+    · simp only [Option.bind_eq_some_iff, Option.some.injEq,
         Prod.mk.injEq] at h
       obtain ⟨s6, h6, ⟨q2, s7⟩, h7, s9, h9, -, rfl⟩ := h
       exact ((r5.trans (consumeSpaces_reach h6)).trans (consumeQuote_reach h7)).trans
@@ -278,11 +278,11 @@ theorem parseEntityDef_reach {s s' : Stream} {g : Bool}
   simp only [parseEntityDef, Option.bind_eq_bind, Option.bind_eq_some_iff] at h
   obtain ⟨c, -, h⟩ := h
   split at h
-  · simp only [Option.bind_eq_bind, Option.bind_eq_some_iff] at h
+  · simp only [Option.bind_eq_some_iff] at h
     obtain ⟨⟨q, s1⟩, h1, h⟩ := h
     exact (consumeQuote_reach h1).trans ((skipBytes_reach _ _).trans (consumeByte_reach h))
   · split at h
-    · simp only [Option.bind_eq_bind, Option.bind_eq_some_iff] at h
+    · simp only [Option.bind_eq_some_iff] at h
       obtain ⟨⟨b, s1⟩, h1, h⟩ := h
       have r1 := parseExternalId_reach h1
       split at h
@@ -290,7 +290,7 @@ theorem parseEntityDef_reach {s s' : Stream} {g : Bool}
       · split at h
         · dsimp only at h
           split at h
-          · simp only [Option.bind_eq_bind, Option.bind_eq_some_iff] at h
+          · simp only [Option.bind_eq_some_iff] at h
             obtain ⟨s3, h3, h⟩ := h
             exact (r1.trans (skipSpaces_reach _)).trans
               (((Reach.adv _ 5).trans (consumeSpaces_reach h3)).trans (skipName_reach h))
@@ -369,7 +369,7 @@ theorem scanChars_pos {f : Str → Char → Bool} {c : Char} {cs : Str} {k : Nat
   simp only [scanChars] at h
   split at h
   · simp at h
-  · simp only [hf, if_true, Option.map_eq_some_iff] at h
+  · simp only [Option.map_eq_some_iff] at h
     obtain ⟨j, _, rfl⟩ := h
     omega
 
